@@ -37,6 +37,14 @@ func nominal(tag string, c *Class) bool {
 			continue
 		}
 		switch dv[0] {
+		case "elseIfLadder":
+			if m.TopIfs >= 1 && m.ElseIfs >= tRepeat-3 {
+				return true
+			}
+		case "elseIfConditionLines":
+			if m.ElseIfs > 0 && len(m.ElseIfLines) == m.ElseIfs {
+				return true
+			}
 		case "methodLen":
 			if m.HasBody && m.CloseLine-m.StartLine == tLen+d {
 				return true
@@ -72,7 +80,7 @@ func nominal(tag string, c *Class) bool {
 }
 
 func TestBoundaryPoints(t *testing.T) {
-	if BoundaryCount() < 200 || BoundaryCount() > 340 {
+	if BoundaryCount() < 200 || BoundaryCount() > 360 {
 		t.Fatalf("boundary points: %d", BoundaryCount())
 	}
 	t.Logf("%d boundary points", BoundaryCount())
@@ -99,11 +107,7 @@ func TestRandomAndRich(t *testing.T) {
 			if acc, non := countAcc(c); acc > 0 && (non < 1 || non >= tLarge-2) {
 				t.Fatalf("random %d: accessor-named method in a class with %d ordinary methods", i, non)
 			}
-			for _, m := range c.Methods {
-				if m.ElseIfs > 0 && m.TopIfs+m.ElseIfs >= tRepeat {
-					t.Fatalf("random %d: else-if chain in a method near the threshold", i)
-				}
-			}
+
 		}
 	}
 	for i := 0; i < 200; i++ {
